@@ -44,11 +44,11 @@ UTF-8 (`ValidUtf8`: they decode to `cdef` / `csrc`) without carriage returns.
 
 Full statement (false, see `cr_in_prelude_changes_output`): the same without
 `NoCR cdef` and `NoCR csrc`. -/
-theorem cli_bytes_eq_api_bytes (gen : Str → Str → Str → Except Err Str) (linesep banner name : Str)
+theorem cli_bytes_eq_api_bytes (gen : Str → Str → Str → Except Err Str) (linesep name : Str)
     (cdefFile csrcFile : Bytes) (cdef csrc : Str)
     (hv1 : utf8Decode cdefFile = some cdef) (hv2 : utf8Decode csrcFile = some csrc)
     (hcr1 : NoCR cdef) (hcr2 : NoCR csrc) :
-    cliReadSources gen linesep .file banner name cdefFile csrcFile
+    cliReadSources gen linesep .file name cdefFile csrcFile
       = apiEmit gen linesep name cdef csrc := by
   simp only [cliReadSources, apiEmit, readText_of_valid _ _ hv1 hcr1, readText_of_valid _ _ hv2 hcr2,
     deliver]
@@ -56,15 +56,15 @@ theorem cli_bytes_eq_api_bytes (gen : Str → Str → Str → Except Err Str) (l
 
 /-- the same statement in terms of the texts: files holding the UTF-8 encoding
 of surrogate-free, `\r`-free texts -/
-theorem cli_bytes_eq_api_bytes_text (gen : Str → Str → Str → Except Err Str) (linesep banner name : Str)
+theorem cli_bytes_eq_api_bytes_text (gen : Str → Str → Str → Except Err Str) (linesep name : Str)
     (cdef csrc : Str) (h1 : ∀ c ∈ cdef, isScalar c = true) (h2 : ∀ c ∈ csrc, isScalar c = true)
     (hcr1 : NoCR cdef) (hcr2 : NoCR csrc) :
     ∃ cdefFile csrcFile, utf8Encode cdef = some cdefFile ∧ utf8Encode csrc = some csrcFile ∧
-      cliReadSources gen linesep .file banner name cdefFile csrcFile
+      cliReadSources gen linesep .file name cdefFile csrcFile
         = apiEmit gen linesep name cdef csrc := by
   obtain ⟨b1, e1, d1⟩ := utf8_roundtrip cdef h1
   obtain ⟨b2, e2, d2⟩ := utf8_roundtrip csrc h2
-  exact ⟨b1, b2, e1, e2, cli_bytes_eq_api_bytes gen linesep banner name b1 b2 cdef csrc d1 d2 hcr1 hcr2⟩
+  exact ⟨b1, b2, e1, e2, cli_bytes_eq_api_bytes gen linesep name b1 b2 cdef csrc d1 d2 hcr1 hcr2⟩
 
 -- the hypotheses hold for an ordinary non-ASCII input
 example : utf8Decode [105, 110, 116, 32, 120, 59, 32, 47, 47, 32, 195, 169, 10]
@@ -74,69 +74,35 @@ example : NoCR [105, 110, 116, 32, 120, 59, 32, 47, 47, 32, 233, 10] := by unfol
 /-- **`exec-python`** likewise: the script file is read in text mode, so for a
 valid UTF-8 script without `\r` the bytes are those of executing the same text
 and calling `emit_c_code(path)`, whatever `--ffi-var` names. -/
-theorem cli_exec_python_bytes_eq_api_bytes (exec : Str → Str → Except Err Str) (linesep banner ffiVar : Str)
+theorem cli_exec_python_bytes_eq_api_bytes (exec : Str → Str → Except Err Str) (linesep ffiVar : Str)
     (pyFile : Bytes) (src : Str) (hv : utf8Decode pyFile = some src) (hcr : NoCR src) :
-    cliExecPython exec linesep .file banner ffiVar pyFile = apiExec exec linesep ffiVar src := by
+    cliExecPython exec linesep .file ffiVar pyFile = apiExec exec linesep ffiVar src := by
   simp only [cliExecPython, apiExec, readText_of_valid _ _ hv hcr, deliver]
   rfl
 
-/-- **Output `-`** — partial: stdout receives the bytes a file would receive
-*if nothing else is printed* (`banner = []`) and the line separator is `\n`
-(POSIX; `sys.stdout` is created with `newline="\n"` and never translates).
-
-Full statement (false on the unchanged tree, see `stdout_has_banner` and
-`stdout_differs_from_file`; known finding C24/stdout-generating-line): the
-same for every `banner`.  The real `banner` is never empty: `emit_c_code` runs
-with `compiler_verbose=1` and prints `generating <_io.StringIO object at 0x…>`
-to the stream the source is then written to. -/
-theorem stdout_same_bytes_partial (gen : Str → Str → Str → Except Err Str)
+/-- **Output `-`**: stdout receives exactly the bytes a file would receive,
+where the line separator is `\n` (POSIX; `sys.stdout` is created with
+`newline="\n"` and never translates).  Nothing else is written to stdout: the
+generator announces only real file names (repaired in /repo a595028; before,
+`generating <_io.StringIO object at 0x…>` preceded the source). -/
+theorem stdout_same_bytes (gen : Str → Str → Str → Except Err Str)
     (exec : Str → Str → Except Err Str) (name ffiVar : Str) (cdefFile csrcFile pyFile : Bytes) :
-    cliReadSources gen [10] .stdout [] name cdefFile csrcFile
-      = cliReadSources gen [10] .file [] name cdefFile csrcFile ∧
-    cliExecPython exec [10] .stdout [] ffiVar pyFile = cliExecPython exec [10] .file [] ffiVar pyFile := by
-  simp only [cliReadSources, cliExecPython, deliver, writeFile, writeStdout, translateOut_lf,
-    List.nil_append]
+    cliReadSources gen [10] .stdout name cdefFile csrcFile
+      = cliReadSources gen [10] .file name cdefFile csrcFile ∧
+    cliExecPython exec [10] .stdout ffiVar pyFile = cliExecPython exec [10] .file ffiVar pyFile := by
+  simp only [cliReadSources, cliExecPython, deliver, writeFile, writeStdout, translateOut_lf]
   trivial
 
-/-- What stdout really receives: the encoded banner followed by exactly the
-bytes a file would receive. -/
-theorem stdout_has_banner (gen : Str → Str → Str → Except Err Str) (banner name : Str)
-    (cdefFile csrcFile : Bytes) (bannerBytes fileBytes : Bytes)
-    (hb : utf8Encode banner = some bannerBytes)
-    (hf : cliReadSources gen [10] .file banner name cdefFile csrcFile = .ok fileBytes) :
-    cliReadSources gen [10] .stdout banner name cdefFile csrcFile = .ok (bannerBytes ++ fileBytes) := by
-  simp only [cliReadSources, deliver, writeFile, writeStdout, translateOut_lf] at hf ⊢
-  cases h1 : readText csrcFile with
-  | error e => simp [h1, bind, Except.bind] at hf
-  | ok csrc =>
-    cases h2 : readText cdefFile with
-    | error e => simp [h1, h2, bind, Except.bind] at hf
-    | ok cdef =>
-      cases h3 : gen name cdef csrc with
-      | error e => simp [h1, h2, h3, bind, Except.bind] at hf
-      | ok text =>
-        simp only [h1, h2, h3, bind, Except.bind] at hf ⊢
-        rw [utf8Encode_append, hb]
-        cases h4 : utf8Encode text with
-        | none => simp [h4] at hf
-        | some tb =>
-          simp only [h4, Except.ok.injEq] at hf ⊢
-          rw [hf]
-
-/-- **Known finding C24/stdout-generating-line**: with the banner that is
-really printed (`"generating …\n"`, here shortened to `"g\n"`) stdout does not
-receive the bytes of the file. -/
-theorem stdout_differs_from_file :
-    cliReadSources (fun _ _ csrc => .ok csrc) [10] .stdout [103, 10] [109] [] [97] = .ok [103, 10, 97] ∧
-    cliReadSources (fun _ _ csrc => .ok csrc) [10] .file [103, 10] [109] [] [97] = .ok [97] := by
-  exact ⟨by rfl, by rfl⟩
+-- not an empty statement: both sides are the encoded source
+example : cliReadSources (fun _ _ csrc => .ok csrc) [10] .stdout [109] [] [97, 10, 195, 169]
+    = .ok [97, 10, 195, 169] := by rfl
 
 /-- An input file that is not valid UTF-8 makes the command line fail with
 `UnicodeDecodeError` (no output). -/
-theorem invalid_utf8_is_an_error (gen : Str → Str → Str → Except Err Str) (linesep banner name : Str)
+theorem invalid_utf8_is_an_error (gen : Str → Str → Str → Except Err Str) (linesep name : Str)
     (o : Output) (cdefFile csrcFile : Bytes) (h : utf8Decode csrcFile = none ∨
       (utf8Decode cdefFile = none ∧ (utf8Decode csrcFile).isSome)) :
-    cliReadSources gen linesep o banner name cdefFile csrcFile = .error .unicodeDecodeError := by
+    cliReadSources gen linesep o name cdefFile csrcFile = .error .unicodeDecodeError := by
   rcases h with h | ⟨h, h'⟩
   · simp only [cliReadSources, readText, h]
     rfl
@@ -151,7 +117,7 @@ generator that copies the prelude into its output (as the real one does), a
 prelude file holding a single `\r` yields `\n` from the command line and `\r`
 from `emit_c_code`. -/
 theorem cr_in_prelude_changes_output :
-    cliReadSources (fun _ _ csrc => .ok csrc) [10] .file [] [109] [] [13] = .ok [10] ∧
+    cliReadSources (fun _ _ csrc => .ok csrc) [10] .file [109] [] [13] = .ok [10] ∧
     apiEmit (fun _ _ csrc => .ok csrc) [10] [109] [] [13] = .ok [13] ∧
     utf8Decode [13] = some [13] := by
   refine ⟨by rfl, by rfl, by decide⟩
